@@ -586,7 +586,7 @@ class Session:
 
     def between(self, tag=None):
         """possibly interleave other transactions at a stage boundary of a control transfer"""
-        if self.failed or not self.data_phase:
+        if self.failed or not self.data_phase or self.quiet_bus:
             return False
         did = False
         while self.rng.random() < self.cfg["p_inter"] and not self.failed:
@@ -618,6 +618,8 @@ class Session:
         return True
 
     just_addressed = False
+    quiet_bus = False        # no bulk traffic between the packets of a request that resets data toggles: a half-done
+                             # bulk transaction across a toggle reset duplicates or loses a packet by protocol design
 
     def data_in(self, wlength, tag=None):
         """data stage device-to-host; returns (kind, data) kind in data|stall|timeout|bad|nak"""
@@ -951,7 +953,9 @@ class Session:
             return
         ep_addr = (0x80 | self.info["ep_in"]) if which == "in" else self.info["ep_out"]
         self.step("CLEAR_HALT", "%02x" % ep_addr)
+        self.quiet_bus = True
         ok = yield from self.nodata_request(U.setup_bytes(0x02, 1, 0, ep_addr, 0), "clear_halt")
+        self.quiet_bus = False
         if ok:
             self.res.bin("clear_halt")
             if which == "in":
@@ -990,7 +994,9 @@ class Session:
             yield from self.set_address(rng.randint(1, 127))
             if self.failed:
                 return
+        self.quiet_bus = True
         ok = yield from self.set_configuration(self.info["config_value"])
+        self.quiet_bus = False
         if not ok:
             return
         self.reconf = {"kind": kind, "out_desync": self.out_toggle == 1, "in_desync": self.in_toggle == 1,
